@@ -48,7 +48,8 @@ def whyS (c : ClassD) : Stmt → List String
       tagIf (!(wideAssign c w e)) "narrow-assign"
   | .ife cnd t e => whyC c cnd ++ whyS c t ++ whyS c e
   | .mtch subj ch => whyV c subj ++ tagIf (!(exact c subj)) "narrow-subject" ++ whyS c ch
-  | .arm v g body rest => tagIf g.isSome "case-guard" ++ (match g with | some ge => whyC c ge | none => []) ++
+  | .arm v g body rest => tagIf (g.isSome && !(match v with | .const k => laterDistinct k rest | _ => false)) "case-guard" ++
+      (match g with | some ge => whyC c ge | none => []) ++
       whyV c v ++ tagIf (!(exact c v)) "narrow-subject" ++ whyS c body ++ whyS c rest
   | .dflt body => whyS c body
 
